@@ -44,6 +44,9 @@ def check(case, ctx):
         ctx.event("dispersion-absent")
     if obl:
         ctx.event("oblique-cell")
+    SF.warm_up(M, case, ctx)
+    if M.int_positions:
+        ctx.event("integer-typed-coordinates")
     hs = [np.array(h, np.int64) for h in case["hkl"]] + [np.zeros(3, np.int64)]
     for h in hs:
         F = SF.sfcalc(M, h)
